@@ -34,6 +34,11 @@ def _code(table, key):
     return table.setdefault(key, len(table))
 
 
+def _lat_code(t):
+    m = np.asarray(t.lattice, dtype=float)
+    return _code(_state.setdefault('lat', {}), repr((bool(getattr(t, 'constant_lattice', True)), m.shape, tuple(np.round(m.ravel(), 9).tolist()))))
+
+
 def _meta_code(md):
     if not isinstance(md, dict):
         return -1
@@ -48,7 +53,7 @@ def _project(t):
     ok = k != OFFGRID
     k = np.where(ok, np.mod(k, N), OFFGRID)
     return {'pos': k.tolist(), 'sp': [_code(_state['sp'], getattr(s, 'symbol', str(s))) for s in t.species],
-            'dt': _code(_state['dt'], repr(t.time_step)), 'meta': _meta_code(t.metadata),
+            'dt': _code(_state['dt'], repr(t.time_step)), 'meta': _meta_code(t.metadata), 'lat': _lat_code(t),
             'dead': False}
 
 
@@ -112,9 +117,9 @@ def install():
             if new:
                 p = _project(self)
                 if self.coords_are_displacement:
-                    _log('ConstructDisp', base=_grid(self.base_positions).tolist(), d=_grid(self.coords).tolist(), sp=p['sp'], dt=p['dt'], meta=p['meta'])
+                    _log('ConstructDisp', base=_grid(self.base_positions).tolist(), d=_grid(self.coords).tolist(), sp=p['sp'], dt=p['dt'], meta=p['meta'], lat=p['lat'])
                 else:
-                    _log('Construct', c=_grid(self.coords).tolist(), sp=p['sp'], dt=p['dt'], meta=p['meta'])
+                    _log('Construct', c=_grid(self.coords).tolist(), sp=p['sp'], dt=p['dt'], meta=p['meta'], lat=p['lat'])
     Trajectory.__init__ = init
 
     def wrap_prop(name, act, conv):
